@@ -248,7 +248,7 @@ def project_onto_tr(x, xk, bounds, trSize):
         return r@r - trSize*trSize
 
     #t = ScalarRootFind.rtsafe(f, x, np.array([0.0, 1.0]), rtsafeSettings)
-    t, results = optimize.brentq(f, 0.0, 1.0, full_output=True)
+    t, results = optimize.brentq(f, 0.0, 1.0, xtol=1e-300, rtol=1e-13, maxiter=500, full_output=True)
     # print('Brent method iterations', results.iterations)
     #if not results.converged:
     #    raise RuntimeError('TrustRegionSPG: Root finder failed')
